@@ -143,6 +143,9 @@ def refresh (I : CycleIn ι) (m : M σ ο) : M σ ο :=
 
 /-! ## the evaluation loop -/
 
+/-- the owned element after an evaluation: the terminal's write, else what was there -/
+def mergeOut (n o : Option ο) : Option ο := match n with | some v => some v | none => o
+
 /-- the re-arm at the end of an iteration: `if (next != MAX_DT && next > evaluation_time) schedule_node(next)` -/
 def rearm (now ps next : Time) : Time := if next ≠ MAX_DT ∧ next > now then schedNode ps now next else ps
 
@@ -161,8 +164,7 @@ def evalIndex (B : Beh Nat σ ι ο ε) (I : CycleIn ι) (r : Rec σ ο) (i : Na
         { m := { r.m with ent := setEnt r.m.ent i (some { e with st := sr.st }) }
           out := { r.out with runs := r.out.runs ++ [i], ok := false } }
       | none =>
-        let outv1 : Option ο := match sr.out with | some v => some v | none => e.outv
-        let e1 : Entry σ ο := { e with st := sr.st, next := clampFuture I.now sr.next, outv := outv1 }
+        let e1 : Entry σ ο := { e with st := sr.st, next := clampFuture I.now sr.next, outv := mergeOut sr.out e.outv }
         -- `propagate_nested_parent_schedule` at the end of the child's completed evaluation
         let ps1 := if e1.next < MAX_DT then schedNode r.m.ps I.now e1.next else r.m.ps
         { m := { r.m with ent := setEnt r.m.ent i (some e1), ps := rearm I.now ps1 e1.next }
